@@ -446,6 +446,7 @@ class GenOpts:
     day_span: int = 900
     zid_registry: Optional[set] = None  # to keep ZIDs unique across a directory
     allow_idfree_trigger: bool = False  # see idfree_trigger()
+    p_mod_equals_create: float = 0.0  # explicit YYMMDD equal to the ZID's own date
     allow_mod_without_zid: bool = True
 
 
@@ -540,7 +541,9 @@ class PageGen:
             zday = self.day()
             it.zid = self.new_zid(zday)
             if rng.random() < o.p_mod:
-                it.mod = zday + dt.timedelta(days=rng.randint(0, 60))
+                it.mod = zday + dt.timedelta(days=rng.randint(1, 60))
+                if rng.random() < o.p_mod_equals_create:
+                    it.mod = zday
         else:
             r = rng.random()
             if r < o.p_ldate:
